@@ -287,6 +287,7 @@ def run(repo: Repo, ctx) -> None:
     _r7(repo, ctx)
     _r9(repo, ctx)
     dep_tables_rule(repo, ctx, 'C11.R9')
+    _r10(repo, ctx)
     # ---- R8 -------------------------------------------------------------------
     from . import c20
     c20.run(repo, _Sub(ctx, 'C11.R8'))
@@ -500,6 +501,185 @@ def _r9(repo, ctx):
            f'block of the same module) are dropped, depending on their '
            f'order in the document', ap.loc,
            sample='setdefault / append only')
+
+
+# TypeExpr arms of _get_hard_deps that are documented not to recurse
+HARD_DEPS_UNVISITED = {
+    ('TypeOf', 'expr'): 'TODO in the source: typeof operands are not traced',
+    ('TypeName', 'name'): 'the element name of a named tuple, not a type',
+    ('TypeName', 'dimensions'): 'integers',
+}
+
+
+def _r10(repo, ctx):
+    """(a) _get_hard_deps visits every type-bearing child of every type
+           expression class it handles;
+       (b) the set of created modules in sdl_to_ddl is exactly the record
+           of the CREATE MODULE commands emitted, and enclosing modules are
+           visited before nested ones;
+       (c) a name-only guess of the tracer (every pointer called X) is a
+           weak reference."""
+    from .. import shapes as SH
+    ctx.floor('C11.R10', 8)
+    # (a)
+    hd = repo.func(f'{DECL}._get_hard_deps')
+    ctx.saw(hd)
+    var = hd.params()[0]
+    arms = SH.isinstance_arms(hd.node, var)
+    if len(arms) < 3:
+        raise AnalysisError('C11.R10: type-expression arms of '
+                            '_get_hard_deps not found')
+    seen_cls = set()
+    for names, arm in arms:
+        for nm in sorted(names):
+            q = f'{QLAST}.{nm}'
+            if q not in repo.classes:
+                continue
+            seen_cls.add(nm)
+            reads = set()
+            for s_ in arm.body:
+                for y in ast.walk(s_):
+                    srcs = []
+                    if isinstance(y, (ast.For, ast.comprehension)):
+                        srcs = [y.iter]
+                    elif isinstance(y, ast.Call):
+                        srcs = list(y.args) + [k.value for k in y.keywords]
+                    for z in srcs:
+                        reads |= {x.attr for x in ast.walk(z)
+                                  if isinstance(x, ast.Attribute)
+                                  and norm(x.value) == var}
+            for f, (_own, ann) in sorted(repo.class_fields(q).items()):
+                a = norm(ann.annotation) if ann.annotation is not None \
+                    else ''
+                if not any(t in a for t in ('TypeExpr', 'Expr', 'ObjectRef',
+                                            'TypeName')):
+                    continue
+                if (nm, f) in HARD_DEPS_UNVISITED:
+                    ctx.ob('C11.R10', f'_get_hard_deps:{nm}.{f}', True,
+                           loc=hd.loc, nontrivial=False,
+                           sample='audited: ' + HARD_DEPS_UNVISITED[(nm, f)])
+                    continue
+                ctx.ob('C11.R10', f'_get_hard_deps:{nm}.{f}', f in reads,
+                       f'the {nm} arm of _get_hard_deps never visits '
+                       f'`.{f}`: a type named only there is not a '
+                       f'dependency of the pointer, so the pointer may be '
+                       f'created before that type for some declaration '
+                       f'orders', hd.loc, sample=f'{var}.{f}')
+    for sub in repo.subclasses(f'{QLAST}.TypeExpr'):
+        nm = sub.split('.')[-1]
+        if nm.startswith('_') or nm == 'TypeExpr':
+            continue
+        ctx.ob('C11.R10', f'_get_hard_deps:arm={nm}', nm in seen_cls,
+               f'_get_hard_deps has no arm for qlast.{nm}: its references '
+               f'are not dependencies', hd.loc, sample=nm)
+    # (b)
+    sd = repo.func(f'{DECL}.sdl_to_ddl')
+    ctx.saw(sd)
+    appends = [c for c in ast.walk(sd.node) if isinstance(c, ast.Call)
+               and isinstance(c.func, ast.Attribute) and c.func.attr ==
+               'append' and c.args and isinstance(c.args[0], ast.Call)
+               and (call_name(c.args[0]) or '').endswith('CreateModule')]
+    if not appends:
+        raise AnalysisError('C11.R10: CREATE MODULE emission of sdl_to_ddl '
+                            'not found')
+    # the record: a set whose .add(n) sits next to the append under
+    # `if n not in <set>`
+    recs = set()
+    for c in appends:
+        st = _stmt_of(sd.node, c)
+        par = _parent_of(sd.node, st)
+        ok = False
+        nmexpr = None
+        k = kwarg(c.args[0], 'name')
+        if k is not None:
+            inner = kwarg(k, 'name') if isinstance(k, ast.Call) else None
+            nmexpr = norm(inner) if inner is not None else norm(k)
+        if isinstance(par, ast.If) and isinstance(par.test, ast.Compare) \
+                and len(par.test.ops) == 1 and isinstance(
+                par.test.ops[0], ast.NotIn) and st in par.body:
+            rec = norm(par.test.comparators[0])
+            who = norm(par.test.left)
+            adds = [x for b in par.body for x in ast.walk(b)
+                    if isinstance(x, ast.Call) and norm(x.func) ==
+                    f'{rec}.add' and x.args and norm(x.args[0]) == who]
+            ok = bool(adds) and nmexpr == who
+            if ok:
+                recs.add(rec)
+        ctx.ob('C11.R10', f'sdl_to_ddl:create-module@L'
+               f'{c.lineno - sd.node.lineno}:recorded', ok,
+               'sdl_to_ddl emits a CREATE MODULE that is not guarded by / '
+               'recorded in the set of created modules: a module is created '
+               'twice, or a nested module before its enclosing one, for '
+               'some orders of the module blocks', sd.loc,
+               sample=norm(st)[:70])
+        # enclosing first: the name is a prefix join that grows with an
+        # ascending range loop
+        loop = par
+        while loop is not None and not isinstance(loop, ast.For):
+            loop = _parent_of(sd.node, loop)
+        asc = False
+        if isinstance(loop, ast.For) and isinstance(loop.iter, ast.Call) \
+                and call_name(loop.iter) == 'range' and isinstance(
+                loop.target, ast.Name):
+            i = loop.target.id
+            rng = loop.iter.args
+            full = (len(rng) == 1 and norm(rng[0]).startswith('len('))
+            sl = [x for x in ast.walk(loop) if isinstance(x, ast.Subscript)
+                  and isinstance(x.slice, ast.Slice) and x.slice.lower is
+                  None and x.slice.upper is not None]
+            asc = full and any(norm(x.slice.upper) in (f'{i} + 1', f'1 + {i}')
+                               for x in sl)
+        ctx.ob('C11.R10', f'sdl_to_ddl:create-module@L'
+               f'{c.lineno - sd.node.lineno}:enclosing-first', asc,
+               'the CREATE MODULE loop of sdl_to_ddl does not walk every '
+               'prefix parts[:i + 1] of the module name in ascending '
+               'length: the module itself or one of its enclosing modules '
+               'is skipped or emitted after a nested one', sd.loc,
+               sample='for i in range(len(parts)): parts[:i + 1]')
+    for rec in sorted(recs):
+        inits = [a for a in ast.walk(sd.node) if isinstance(a, (
+            ast.Assign, ast.AnnAssign)) and norm(
+            a.targets[0] if isinstance(a, ast.Assign) else a.target) == rec]
+        empty = all(a.value is not None and norm(a.value) in (
+            'set()', '{}') or (isinstance(a.value, ast.Set) and
+                               not a.value.elts) for a in inits) and inits
+        other = [norm(x) for x in ast.walk(sd.node) if isinstance(x, ast.Call)
+                 and isinstance(x.func, ast.Attribute) and norm(
+                 x.func.value) == rec and x.func.attr in (
+                 'update', 'discard', 'remove', 'clear', 'pop')]
+        ctx.ob('C11.R10', f'sdl_to_ddl:{rec}:starts-empty', bool(empty)
+               and not other,
+               f'`{rec}` does not start empty / is changed outside the '
+               f'emission guard: a module counted as created without its '
+               f'CREATE MODULE having been emitted lets a nested module be '
+               f'created first when its block comes first', sd.loc,
+               sample=f'{rec} = set()')
+    # (c)
+    tm = repo.module(TRACER)
+    n_c = 0
+    for f in repo._funcs_of(tm):
+        for c in ast.walk(f.node):
+            if not (isinstance(c, ast.Call) and isinstance(
+                    c.func, ast.Attribute) and c.func.attr in (
+                    'update', '__ior__') and c.args):
+                continue
+            a0 = c.args[0]
+            if not (isinstance(a0, ast.Call) and norm(a0.func).endswith(
+                    '.pointers.get')):
+                continue
+            n_c += 1
+            ok = norm(c.func.value).endswith('.weak_refs')
+            ctx.ob('C11.R10', f'{f.name}:name-guess@L'
+                   f'{c.lineno - f.node.lineno}', ok,
+                   f'{f.name} records every pointer with a matching short '
+                   f'name (`{norm(a0)[:40]}`) in `{norm(c.func.value)}`: '
+                   f'the guess is a hard dependency, so a valid document '
+                   f'is rejected as cyclic (the declaration can depend on '
+                   f'itself) or ordered by a dependency that does not '
+                   f'exist', f.loc, sample=norm(c)[:70])
+    if n_c < 3:
+        raise AnalysisError('C11.R10: name-guess fallbacks of the tracer '
+                            'not found')
 
 
 def _parent_of(root, node):
